@@ -404,7 +404,17 @@ def check_inv_link(facts, rep):
     K = 'yui_link::inv_link::InvLink::'
     nb = facts.bodies.get(K + 'new')
     mb = facts.bodies.get(K + 'mirror')
-    cb = facts.bodies.get(K + 'sinv_knot_from_code::{closure#0}')
+    # the edge involution: whichever closure sinv_knot_from_code hands to InvLink::new
+    cb = None
+    sb_ = facts.bodies.get(K + 'sinv_knot_from_code')
+    if sb_ is not None:
+        try:
+            for p in SymEx(sb_, havoc_loops=True, max_paths=5000).run():
+                for e in p.calls():
+                    if e.name == K + 'new' and len(e.args) >= 2 and strip(e.args[1])[0] == 'closure':
+                        cb = facts.bodies.get(strip(e.args[1])[1]) or cb
+        except Exception:
+            cb = None
     if not (nb and mb and cb):
         rep.indet('E7b.K8: InvLink::{new, mirror, sinv_knot_from_code closure} not found')
         return
@@ -471,6 +481,28 @@ def check_inv_link(facts, rep):
         if k == K + 'mirror::{closure#0}':
             pair = [dk(p.ret) for p in SymEx(b2).run() if p.end == 'return']
     inst = 'InvLink::mirror|mirrors both sides of every crossing pair'
+    if pair is None:
+        # the same map filled by a loop: for (x, y) in self.x_map.iter() { m.insert(x.mirror(), y.mirror()) }
+        hp = SymEx(mb, havoc_loops=True, max_paths=5000).run()
+        rets = [p for p in hp if p.end == 'return']
+        ins = set()
+        srcs = set()
+        for p in hp:
+            for (fid, bb_, l), v in p.state.loop_entry.items():
+                if fid == 0 and strip(v)[0] == 'call' and strip(v)[1].endswith('into_iter'):
+                    srcs.add(dk(v).replace('&', '').replace('*', ''))
+            for e in p.calls():
+                if e.name.split('::')[-1] == 'insert' and len(e.args) == 3:
+                    ins.add(tuple(re.sub(r'&mut _\d+', 'IT', dk(a)).replace('&', '').replace('*', '') for a in e.args[1:]))
+        if len(rets) == 1 and strip(rets[0].ret)[0] == 'adt':
+            d_ = dict(zip(strip(rets[0].ret)[3], strip(rets[0].ret)[4]))
+            rest_ok = dk(d_.get('link', ())) == 'mirror(&*arg1.link)' and dk(d_.get('base_pt', ())) == '*arg1.base_pt' and dk(d_.get('e_map', ())) == 'clone(&*arg1.e_map)' and strip(d_.get('x_map', ('?',)))[0] == 'loopvar'
+            if rest_ok and srcs == {'into_iter(iter(arg1.x_map))'} and ins == {('mirror(next(IT).Some.0.0)', 'mirror(next(IT).Some.0.1)')}:
+                rep.ok('E7b.K8-inv-link', inst, 'for (x, y) in x_map { insert(x.mirror(), y.mirror()) }')
+                return
+            if rest_ok and srcs == {'into_iter(iter(arg1.x_map))'} and len(ins) == 1 and all(re.match(r'((mirror|clone)\()?next\(IT\)\.Some\.0\.[01]\)?$', x) for x in next(iter(ins))):
+                rep.violation('E7b.K8-inv-link', inst, 'InvLink::mirror maps a crossing pair to %s: both sides must be mirrored, otherwise inv_x of a mirrored crossing is not a crossing of the mirrored link' % (next(iter(ins)),), where=mb.where())
+                return
     if rr == ['InvLink::InvLink{link: mirror(&*arg1.link), base_pt: *arg1.base_pt, e_map: clone(&*arg1.e_map), x_map: collect(map(iter(&*arg1.x_map), closure<{closure#0}>))}'] and pair == ['(mirror(arg2.0), mirror(arg2.1))']:
         rep.ok('E7b.K8-inv-link', inst, '(x.mirror(), y.mirror())')
     elif pair and len(pair) == 1 and re.match(r'\(((mirror|clone)\()?&?\*?arg2\.0\)?, ((mirror|clone)\()?&?\*?arg2\.1\)?\)$', pair[0]):
